@@ -71,6 +71,7 @@ type Route struct {
 	SetReq      []KV   `json:"set_req"`
 	SetResp     []KV   `json:"set_resp"` // http kind only
 	HostRewrite string `json:"host_rewrite"`
+	Group       bool   `json:"group"` // http kind: the proxy is the only member of a load-balancing group (its route is made by the group controller)
 }
 
 type Case struct {
@@ -204,6 +205,7 @@ func gen(t *rapid.T) Case {
 		}
 		rt.SetReq = genKVs(t, l+"/setreq", []string{"X-Custom-A", "x-from-proxy", "X-MiXeD-CaSe", "Accept", "User-Agent", "X-Set-Only", "X-Forwarded-Proto", "X-Forwarded-Host"}, 3)
 		if rt.Kind == "http" {
+			rt.Group = rapid.IntRange(0, 2).Draw(t, l+"/group") == 0
 			rt.SetResp = genKVs(t, l+"/setresp", []string{"X-Backend", "x-added-by-frp", "Cache-Control", "Set-Cookie"}, 3)
 		}
 		if rapid.IntRange(0, 2).Draw(t, l+"/rewrite") == 0 {
@@ -441,7 +443,7 @@ type got struct {
 func brief(c Case) string {
 	var rs []string
 	for _, r := range c.Routes {
-		rs = append(rs, fmt.Sprintf("%s(enc=%v comp=%v limit=%q rewrite=%q setReq=%d setResp=%d)", r.Kind, r.Enc, r.Comp, r.Limit, r.HostRewrite, len(r.SetReq), len(r.SetResp)))
+		rs = append(rs, fmt.Sprintf("%s(enc=%v comp=%v limit=%q rewrite=%q setReq=%d setResp=%d group=%v)", r.Kind, r.Enc, r.Comp, r.Limit, r.HostRewrite, len(r.SetReq), len(r.SetResp), r.Group))
 	}
 	return fmt.Sprintf("[tcpMux=%v routes=%v conns=%d]", c.TCPMux, rs, len(c.Conns))
 }
@@ -504,6 +506,9 @@ func run(c Case) error {
 			p.LocalIP, p.LocalPort = "127.0.0.1", port
 			p.CustomDomains = []string{domainOf(i)}
 			p.HostHeaderRewrite, p.RequestHeaders, p.ResponseHeaders = rt.HostRewrite, hdrs(rt.SetReq), hdrs(rt.SetResp)
+			if rt.Group {
+				p.LoadBalancer.Group, p.LoadBalancer.GroupKey = fmt.Sprintf("grp%d", i), "gk"
+			}
 			pcs = append(pcs, p)
 		case "http2http", "http2https":
 			p := &v1.HTTPProxyConfig{}
@@ -832,6 +837,9 @@ func classify(c Case) fx.Class {
 	var labels []string
 	for _, rt := range c.Routes {
 		labels = append(labels, "route="+rt.Kind)
+		if rt.Group {
+			labels = append(labels, "route=http-in-group")
+		}
 		if len(rt.SetReq) > 0 || len(rt.SetResp) > 0 || rt.HostRewrite != "" {
 			nt = true
 		}
